@@ -23,7 +23,11 @@ def import_tucan(repo=None):
     if not got.startswith(repo + os.sep):
         raise RuntimeError(f"INCONCLUSIVE wrong tree imported: {got} not under {repo}")
     import tucan.canonicalization, tucan.serialization, tucan.graph_utils, tucan.io, tucan.parser.parser  # noqa
-    import tucan.io.molfile_reader, tucan.io.molfile_writer, tucan.test_utils  # noqa
+    import tucan.io.molfile_reader, tucan.io.molfile_writer  # noqa
+    try:
+        import tucan.test_utils  # noqa  (a helper module; the monitors do not depend on it)
+    except Exception:
+        pass
     _tucan = tucan
     return tucan
 
@@ -110,12 +114,14 @@ def mol_colors_edges(mol):
     return mol.colors(), mol.edge_pairs()
 
 
-def fingerprint(g, ignore_explored_false=False):
+def fingerprint(g, ignore_explored_false=False, ignore_keys=()):
     """Deep, order-sensitive fingerprint of an nx graph (node order, node attrs, edge order, edge attrs, graph attrs)."""
     def items(d):
         out = []
         for k in sorted(d, key=str):
             if ignore_explored_false and k == "explored" and d[k] is False:
+                continue
+            if k in ignore_keys:
                 continue
             out.append((k, repr(d[k])))
         return tuple(out)
